@@ -154,7 +154,8 @@ def other_history(r, idx, n, kind):
         if k < 0.3:
             w = X.gen_request(r, L, r.choice(X.DATA_FCS), valid=r.random() < 0.8)
             if h.request(w):
-                items.append("XData (%s) %s (%s)" % (h.last_terms[0], h.last_terms[1], h.last_terms[2].replace("OExc ", "CorrExec.OExc ")))
+                items.append("XData (%s) %s (%s) %s" % (h.last_terms[0], h.last_terms[1],
+                                                       h.last_terms[2].replace("OExc ", "CorrExec.OExc "), h.last_terms[3]))
                 desc.append({"data": list(w), "response": list(h.last_obs)})
         elif k < 0.38:
             i = r.randrange(9)
